@@ -57,9 +57,13 @@ Qed.
 Theorem C13_cpp_exception_strdup_refuted :
   exists s, In s cpp_sites /\ kind_of_site s = Unchecked /\ run_alloc [s] 0 0 = NullUsedAt 0.
 Proof.
-  exists {| al_file := "libconfigcpp.c++"; al_fun := "libconfig::ParseException::ParseException";
-            al_callee := "strdup"; al_line := 62; al_class := Raw |}.
-  repeat split. vm_compute. tauto.
+  (* the witness is the first unchecked site of the census, whatever line it stands on *)
+  set (unchecked := fun s => match kind_of_site s with Unchecked => true | _ => false end).
+  destruct (find unchecked cpp_sites) as [s|] eqn:E; [|vm_compute in E; discriminate E].
+  destruct (find_some _ _ E) as [Hin Hu]. unfold unchecked in Hu.
+  exists s. split; [exact Hin|].
+  assert (Hk : kind_of_site s = Unchecked) by (destruct (kind_of_site s); try discriminate Hu; reflexivity).
+  split; [exact Hk|]. cbn [run_alloc]. rewrite Hk. reflexivity.
 Qed.
 Print Assumptions C13_cpp_exception_strdup_refuted.
 
